@@ -222,7 +222,7 @@ package gnet
 //@ func (cm *connMatrix) init()
 //@   requires cm != nil && cm.connCount == 0
 //@   modifies cm.connMap
-//@   ensures cmwf(cm) && fresh(cm.connMap) && (forall fd :: reg(cm, fd) == nil)
+//@   ensures cmwf(cm) && (forall fd :: reg(cm, fd) == nil)
 //
 //@ func (cm *connMatrix) incCount(row int, delta int32)
 //@   requires cm != nil && -2147483648 <= cm.connCount + delta && cm.connCount + delta <= 2147483647
@@ -331,6 +331,8 @@ package gnet
 //@   ensures [C18] old(c.opened && reg(el.connections, c.fd) != nil) ==> (cerr[c] <==> err != nil)
 //@   ensures [C18] old(shutreq) ==> shutreq
 //@   ensures [C18] rerr == errorx.ErrEngineShutdown ==> shutreq
+// the descriptor is taken out of the poller before its number is closed (a duplicate made by Conn.Dup keeps the registration alive otherwise)
+//@   assert after Close #1: delreq[c.fd]
 //@   loop 1:
 //@     invariant el == el$0 && c == c$0 && c.loop == el && c.fd == old(c.fd) && elwf(el) && c.opened && c.phase == 1 && nclose[c] == 1 &&
 //@          owner[c.fd] != nil && reg(el.connections, c.fd) == nil && iwf(c) && elastic.bwf(c.outboundBuffer) && addrok(c) && ringsep(c) && !c.isDatagram &&
@@ -789,6 +791,45 @@ package gnet
 //@          owner[fd] != nil && has(el.listeners, fd) && el.listeners[fd] != nil &&
 //@          ((typeis(el.listeners[fd].addr, "*net.TCPAddr") || typeis(el.listeners[fd].addr, "*net.UDPAddr")) ==> ref(el.listeners[fd].addr) != nil) &&
 //@          (forall l *eventloop :: l != nil ==> l.listeners == el.listeners)
+
+// ---------------------------------------------------------------------------------------------
+// Engine start-up (reactor mode): what every event loop looks like when it is handed to the load balancer. This is where
+// the facts the loop-side contracts take as preconditions come from: elwf (engine, options, poller, handler, registry,
+// non-empty read buffer) and "every loop shares the engine's listener table" - conn.release takes an empty listener table
+// as the sign of a client connection that owns its local address (and recycles that address's zone bytes), and accept0
+// gives every accepted connection the listener's own address object (C17: LocalAddr stays truthful).
+// lbreg (bookkeeping): the loop most recently registered with the load balancer.
+//@ ghost log lbreg Ref
+//@ iface loadBalancer.register(el *eventloop)
+//@   requires el != nil
+//@   modifies lbreg, el.idx
+//@   ghostdef lbreg := el
+//@ func (eng *engine) activateReactors(ctx context.Context, numEventLoop int) (err error)
+//@   requires eng != nil && eng.opts != nil && eng.eventLoops != nil && eng.eventHandler != nil && eng.opts.ReadBufferCap > 0 && eng.opts.ReadBufferCap <= 4611686018427387904
+//@   modifies-all-except Options, listener
+//@   assert after register #1: asel(lbreg).listeners == eng.listeners && asel(lbreg).engine == eng && elwf(asel(lbreg)) && len(asel(lbreg).buffer) == eng.opts.ReadBufferCap && asel(lbreg).eventHandler == eng.eventHandler && (forall fd :: reg(asel(lbreg).connections, fd) == nil)
+//@   stop after iterate #1
+//@   loop 1:
+//@     invariant eng == eng$0 && eng != nil && eng.opts != nil && eng.eventLoops != nil && eng.eventHandler != nil && eng.opts.ReadBufferCap > 0 && eng.opts.ReadBufferCap <= 4611686018427387904
+
+// engine.stop (the goroutine behind Run): the terminal flag that Engine.Stop polls and the control API's guard reads is set
+// only after every goroutine of the engine has ended (errgroup Wait) and the listeners and pollers have been closed (C19:
+// "shutdown has completed"; C06 itself - that this happens in bounded time - is not a contract matter).
+// loopsclosed (bookkeeping): closeEventLoops has run.
+//@ ghost log loopsclosed bool
+//@ func (eng *engine) closeEventLoops()
+//@   noverify iterates the loops through a function value and ranges over listener maps
+//@   requires eng != nil
+//@   modifies-all-except engine, eventloop, Options, ghost:grpwaited, ghost:loopsclosed
+//@   modifies loopsclosed
+//@   ghostdef loopsclosed := true
+//@ iface EventHandler.OnShutdown(eng Engine)
+//@   modifies-all-except engine, eventloop, Options
+//@ func (eng *engine) stop(ctx context.Context, s Engine)
+//@   requires eng != nil && ctx != nil && eng.eventHandler != nil && eng.eventLoops != nil && eng.opts != nil && eng.opts.Logger != nil && eng.concurrency.Group != nil
+//@   requires eng.ingress != nil ==> eng.ingress.poller != nil
+//@   modifies-all-except Options
+//@   assert after Store #1: grpwaited && loopsclosed
 
 // ---------------------------------------------------------------------------------------------
 // The loop-side tasks of Conn.Wake, Conn.Close and Conn.CloseWithCallback (closures queued through Poller.Trigger; gvc binds
